@@ -38,9 +38,14 @@ type PD struct {
 }
 `
 
-func c09Prog(iface, method pg.Toggles) *pg.Prog {
+func c09Prog(iface, method pg.Toggles) *pg.Prog { return c09ProgOrder(iface, method, false) }
+
+// c09ProgOrder: the probe method carries ":skip plain" (lower case; the field is Plain), whose effect
+// depends on the effective case rule; togglesLast writes the toggles after the :skip line.
+func c09ProgOrder(iface, method pg.Toggles, togglesLast bool) *pg.Prog {
 	p := &pg.Prog{}
-	p.Ifaces = []pg.Iface{{Name: "Convergen", Opts: iface, Methods: []pg.Method{{Name: "ConvertProbe", SrcType: "PS", DstType: "PD", SrcPtr: true, DstPtr: true, Opts: method}}}}
+	p.Ifaces = []pg.Iface{{Name: "Convergen", Opts: iface, Methods: []pg.Method{{Name: "ConvertProbe", SrcType: "PS", DstType: "PD", SrcPtr: true, DstPtr: true, Opts: method,
+		Notes: []pg.Notation{{Kind: "skip", Args: []string{"plain"}}}, TogglesLast: togglesLast}}}}
 	p.ExtraFiles = hx.Files{{Name: "home/probe.go", Data: c09Types}}
 	return p
 }
@@ -120,7 +125,10 @@ func c09Inherit(env *hx.Env, i, m pg.Toggles, canon map[pg.Effective]string) hx.
 		canon[eff] = d
 		want = d
 	}
-	got, msg, judged := declOf(env, c09Prog(i, m).Files(), ".ConvertProbe")
+	// the order of the notation lines of a method does not matter: odd table entries write the toggles
+	// after the :skip line
+	togglesLast := (int(i.Case)+int(i.Getter)*3+int(m.Case)*9+int(m.Stringer)*27+int(m.Typecast))%2 == 1
+	got, msg, judged := declOf(env, c09ProgOrder(i, m, togglesLast).Files(), ".ConvertProbe")
 	if !judged {
 		return hx.Verdict{OK: true, Inconclusive: true}
 	}
